@@ -81,6 +81,20 @@ IdentitySession(kind, st, ct, salt, sweepFns, sweepFrom) ==
                  [op |-> "Twins", fns |-> IdentityFns, in |-> w \o Tail40, L |-> Min(L, Len(w) + 40), cls |-> cls \o "+tail"] >>
               \o [i \in 1..Len(sweepFns) |-> [op |-> "Sweep", fn |-> sweepFns[i], in |-> w \o << 0, 255 >>, from |-> sweepFrom, cls |-> cls]]]
 
+\* the same twin session on given bytes
+IdentityBytesSession(w, cls) ==
+  LET L == RefReadKAC(w).consumed IN
+  [ops |-> << [op |-> "Twins", fns |-> IdentityFns, in |-> w, L |-> Min(L, Len(w)), cls |-> cls],
+              [op |-> "Twins", fns |-> IdentityFns, in |-> w \o Tail40, L |-> Min(L, Len(w) + 40), cls |-> cls \o "+tail"] >>]
+\* extreme values of the encryption-key field (0, 1, all ones, a leading zero byte) and of the signing-key field: a reader that
+\* validates the key as a number must not disagree with one that copies it
+ExtremeKeyVecs ==
+  Cross2(<< << 7, 0 >>, << 0, 0 >>, << 7, 4 >>, << 11, 4 >> >>,
+         << << "y0", Zeros(256) >>, << "y1", Zeros(255) \o << 1 >> >>, << "yff", Rep(256, 255) >>, << "ylead0", << 0 >> \o Fill(255, 7) >>, << "ymid", Fill(256, 3) >> >>,
+         LAMBDA p, y : IdentityBytesSession(y[2] \o Zeros(BlockLen - 256 - Max(SigPubLen(p[1]), 0)) \o Fill(Max(SigPubLen(p[1]), 0), 9) \o KeyCertBytes(p[1], p[2], 0),
+                                            "extremekey-" \o y[1] \o "/" \o ToString(p[1]) \o "/" \o ToString(p[2])))
+  \o SeqMap(LAMBDA y : IdentityBytesSession(Fill(256, 5) \o y[2] \o << 0, 0, 0 >>, "extremekey-null-" \o y[1]),
+            << << "s0", Zeros(128) >>, << "sff", Rep(128, 255) >>, << "s1", Zeros(127) \o << 1 >> >> >>)
 SweepFnsQuick == << "ReadKeysAndCert" >>
 SweepFnsAll == << "ReadKeysAndCert", "ReadKeysAndCertElgAndEd25519", "ReadKeysAndCertX25519AndEd25519", "ReadDestination", "ReadRouterIdentity" >>
 IdentVecs ==
@@ -93,6 +107,7 @@ IdentVecs ==
                            L |-> Len(w), cls |-> kind \o "/7/4+tail"] >>], << "keyhuge3", "keyhuge5" >>)
   \o Cross2(LibPairs, << "key" >>, LAMBDA p, kind :
        IdentitySession(kind, p[1], p[2], 200 + p[1] + p[2], SweepFnsAll, IF Thorough THEN 0 ELSE BlockLen - 2))
+  \o ExtremeKeyVecs
 
 (*************************** mappings ***************************************)
 S(str) == str   \* byte strings are written as tuples below
